@@ -205,3 +205,69 @@ def run(rep):
                        f"lex_commented is called with a {what} offset that is neither 0, a text length nor a Span bound "
                        f"(found {r and r[0]}: {str(r and r[1])[:80]}): `&src.text[..end]` / `src[position..]` panic off a char boundary")
     rep.floor("R4-lex-range-is-valid", 4, n4 * 2)
+    rule_consumed_attribute_kept(rep, F)
+
+
+def rule_consumed_attribute_kept(rep, F):
+    """R6: premise of the reviewed `expect` sites in Annotated::parse (spec/c16_sites.txt): "an empty parser after parsing attributes
+    means at least one attribute was consumed" only implies a non-empty list if every declaration the attribute-list parser consumes is
+    pushed. Must-pass-through: from the success edge of each consuming call, every path to the next loop iteration or to the Ok return
+    goes through Vec::push."""
+    import re
+    fs = [f for f in F.fns.values() if f.crate == "sway_parse" and re.search(r"Parse for alloc::vec::Vec<sway_ast::attribute::AttributeDecl>>::parse$", f.name)]
+    if len(fs) != 1:
+        raise AnalysisError(f"C16 R6: attribute-list parser not found ({[f.name for f in fs]})")
+    f = fs[0]
+    defs = mir.defs_of(f)
+    push = {bi for bi, t in f.calls() if re.search(r"Vec::<T, A>::push$|Vec::<T>::push$", t.get("fp", ""))}
+    errs = {bi for bi, t in f.calls() if re.search(r"FromResidual<.*>>::from_residual$", t.get("fp", "") + (t.get("rn") or ""))}
+    consuming = [(bi, t) for bi, t in f.calls() if re.search(r"Parser::<'a, 'e>::(parse|guarded_parse|parse_to_end|try_parse|take)$", t.get("fp", ""))]
+    peeks = [bi for bi, t in f.calls() if re.search(r"Parser::<'a, 'e>::peek", t.get("fp", ""))]
+    if not consuming or not peeks:
+        raise AnalysisError("C16 R6: no consuming call / loop header found in the attribute-list parser")
+    header = min(peeks)
+    rets = {bi for bi, bb in enumerate(f.bbs) if bb["t"]["k"] == "ret"}
+    n = 0
+    for bi, t in consuming:
+        # success edge: Try::branch Continue target, then (for Option results) the Some target
+        starts = []
+        cur = t.get("t")
+        seen = 0
+        while cur is not None and seen < 6:
+            seen += 1
+            tt = f.term(cur)
+            if tt["k"] == "call" and re.search(r"Try>::branch$|Try::branch$", tt.get("fp", "") + (tt.get("rn") or "")):
+                cur = tt.get("t")
+                continue
+            if tt["k"] == "switch":
+                ts = dict((a, b) for a, b in tt["ts"])
+                # Result-like branch: "0" = Continue; Option: "1" = Some
+                dl = tt["o"][0].get("l")
+                dd = defs.get(dl, [])
+                src = dd[0][3][0] if dd and dd[0][2] == "disc" else {}
+                sdefs = defs.get(src.get("l"), [])
+                is_branch = bool(sdefs and sdefs[0][2] == "call" and re.search(r"Try>::branch$|Try::branch$", sdefs[0][4].get("fp", "") + (sdefs[0][4].get("rn") or "")))
+                if is_branch and "0" in ts:
+                    cur = ts["0"]
+                    if re.search(r"guarded_parse$|try_parse$", t.get("fp", "")):
+                        continue  # the Option inside is switched on next
+                    starts.append(cur)
+                    break
+                if "1" in ts and re.search(r"guarded_parse$|try_parse$", t.get("fp", "")):
+                    starts.append(ts["1"])
+                    break
+                raise AnalysisError(f"C16 R6: unrecognised branch after {t.get('fp')} at line {t.get('ln')}")
+            if tt["k"] == "goto":
+                cur = tt.get("t")
+                continue
+            break
+        if not starts:
+            raise AnalysisError(f"C16 R6: success edge of {t.get('fp')} at line {t.get('ln')} not found")
+        for st in starts:
+            n += 1
+            reach = f.reachable(st, avoid=push | errs) if st not in push else set()
+            bad = (reach & rets) | ({header} & reach)
+            rep.ob("R6-consumed-attribute-is-kept", f"{f.name}|{t.get('fp', '').split('::')[-1]}#{n}", not bad, f.file, t["ln"],
+                   "a declaration consumed by this call can reach the next loop iteration / the Ok return without being pushed: the list can then be "
+                   "empty although input was consumed, and Annotated::parse's `first().expect(..)` / `last().expect(..)` (reviewed sites) panic")
+    rep.floor("R6-consumed-attribute-is-kept", 2, n)
